@@ -153,6 +153,12 @@ def describe_construct(ev, obs, entry):
     o = (obs or [{}])[0] if isinstance(obs, list) else {}
     if ev.get("fn") == "NewDecimal":
         call = "NewDecimal(%d, %s)" % (pretty.num(ev["is"][0]), ev["e"])
+    elif ev.get("fn") in ("Duration.ToDays", "Duration.ToHours", "Duration.ToMinutes", "Duration.ToSeconds", "Duration.ToMilliseconds"):
+        call = "NewDurationFromMillis(%d).%s()" % (pretty.num(ev["is"][0]), ev["fn"].split(".")[1])
+    elif ev.get("fn") == "NewDuration":
+        call = "NewDuration(time.Duration(%d))" % pretty.num(ev["is"][0])
+    elif ev.get("fn") == "Datetime.Time":
+        call = "NewDatetime(NewDatetimeFromMillis(%d).Time())" % pretty.num(ev["is"][0])
     elif ev.get("fn") == "Duration.Duration":
         call = "NewDurationFromMillis(%d).Duration() [nanoseconds]" % pretty.num(ev["is"][0])
     else:
